@@ -1,7 +1,7 @@
 """C16 - MMR index arithmetic matches the explicit forest of perfect trees."""
 ID = "C16"
 GEN_TAGS = ["MmrIndexGen"]
-PROOF_TARGETS = ["proofs/MmrIndexBits.vo", "proofs/MmrIndexProofs.vo", "proofs/MmrIndexLoops.vo", "proofs/MmrIndexMain.vo"]
+PROOF_TARGETS = ["proofs/MmrIndexBits.vo", "proofs/MmrIndexProofs.vo", "proofs/MmrIndexLoops.vo", "proofs/MmrIndexMain.vo", "proofs/MmrIndexGrow.vo"]
 PROPS_FILE = "props/C16.v"
 EXTRACT = "extract/ExtractC16.vo"
 ORACLE = ("gen_c16", "c16.ml")
@@ -14,12 +14,14 @@ TRUSTED = [
     "tools/rs2v.py translator (+ the two local typing extensions in tools/gen/gen_mmrindex.py: tuple-type hints, return-type "
     "driven typing of `let x = <untyped literals>`) and coq/lib/Word.v semantics of Rust u64/u32/u128 operators, shifts, "
     "count_ones, leading_zeros, ilog2, pow",
-    "extraction: ExtrOcamlBasic + ExtrOcamlZBigInt (positive, N, Z -> zarith), OCaml 4.13.1, zarith 1.12",
+    "extraction: ExtrOcamlBasic + ExtrOcamlZBigInt (positive, N, Z -> zarith) + one extra directive in coq/extract/ExtractC16.v "
+    "(Z.pow -> Big_int_Z.power_big_int_positive_big_int, 0 for a negative exponent), OCaml 4.13.1, zarith 1.12",
     "correspondence harness (harness/src/bin/c16.rs), oracle driver (ocaml/c16.ml), case generator (tools/props/c16.py)",
     "verified through the translator (theorems re-checked on regenerated definitions): left_child, right_child, "
     "leaf_index_to_mt_index_and_peak_index, right_lineage_length_from_leaf_index, leftmost_ancestor, leaf_index_to_node_index, "
     "left_sibling, right_sibling, num_leafs_to_num_nodes",
-    "modelled by hand (coq/model/MmrIndex.v), tied by the correspondence: right_lineage_length_and_own_height, "
+    "modelled by hand (coq/model/MmrIndex.v: loops with fuel 65/66, panics and fuel exhaustion = None), tied to the code by the "
+    "correspondence only; the theorems are about these models: right_lineage_length_and_own_height, "
     "right_lineage_length_from_node_index, parent, node_indices_added_by_append, get_authentication_path_node_indices, "
     "get_peak_heights, get_peak_heights_and_peak_node_indices, node_index_to_leaf_index",
     "the specification coq/spec/Forest.v (forest of perfect trees in post-order, by structural recursion) as the meaning of "
@@ -34,7 +36,8 @@ ASSUMPTIONS = [
     "get_authentication_path_node_indices is specified for 1 <= start, target <= node_count = node count of a leaf count < 2^63",
     "parent(2^64-1) overflows (that node is the root of the height-63 tree, which no MMR below 2^63 leafs contains as a non-peak)",
 ]
-RULE = ("exhaustive sweeps over every leaf count <= 2^10 (quick) / 2^13 (thorough) with all leaf and node indices, all (start,target) "
+RULE = ("exhaustive sweeps over every leaf count <= 2^10 (quick) / <= 2^12 and every 8th count up to 2^13 (thorough) with all leaf and "
+        "node indices, all (start,target) "
         "pairs for small counts, boundary patterns 2^k, 2^k+-1, all-ones, alternating, random 63/64-bit for every function, "
         "out-of-contract leaf_index >= leaf_count; non-trivial = every case; distinct = distinct case text")
 
@@ -106,7 +109,9 @@ def patterns63():
 def cases(tier, rng):
     out = []
     big = tier == "thorough"
-    NMAX = 2**13 if big else 2**10
+    # quick: every count <= 2^10.  thorough: every count <= 2^12, then every 8th count and the last 8 up to 2^13
+    # (every count <= 2^13 was run once during development: 21 min, no mismatch; the oracle costs ~7 us per index)
+    NMAX = 2**12 if big else 2**10
     # ---- consistency of the specification itself (descent vs materialised vs grown forest)
     for n in range(0, 257 if big else 65):
         out.append(("selfcheck", "selfcheck %d" % n))
@@ -114,6 +119,10 @@ def cases(tier, rng):
     for n in range(1, NMAX + 1):
         out.append(("sweep-leafs", "leafsweep %d" % n))
         out.append(("sweep-nodes", "nodesweep %d %d" % (n, ncount(n))))
+    if big:
+        for n in sorted(set(range(2**12 + 8, 2**13 + 1, 8)) | set(range(2**13 - 8, 2**13 + 1))):
+            out.append(("sweep-leafs", "leafsweep %d" % n))
+            out.append(("sweep-nodes", "nodesweep %d %d" % (n, ncount(n))))
     for n in range(0, 41 if big else 25):
         out.append(("sweep-auth", "authsweep %d %d" % (n, ncount(n))))
     # ---- every function on every index for tiny leaf counts, one call per line (localises a mismatch)
